@@ -27,7 +27,7 @@ Decls == ndJsonDeserialize("catalog_decls.ndjson")
 ValuesFor(od) ==
   IF od.choices # <<>> THEN {od.choices[1], <<122>>}
   ELSE IF od.kind = "map" THEN {<<107, 58, 53>>, <<107, 58, 54>>, <<106, 58, 55>>}          \* k:5 k:6 j:7
-  ELSE IF IsSignedInt(od.vtype) THEN {<<53>>, <<45, 53>>, <<120>>}                              \* 5 -5 x
+  ELSE IF IsSignedInt(od.vtype) THEN {<<53>>, <<45, 53>>, <<120>>, <<48, 49, 48>>}                 \* 5 -5 x 010
   ELSE IF IsUnsignedInt(od.vtype) THEN {<<53>>, <<45, 49>>}
   ELSE {<<97>>, <<61, 98>>}                                                                     \* a =b
 
@@ -68,7 +68,7 @@ Alphabet(d) ==
 Vectors(d) == UNION {[1..n -> Alphabet(d)] : n \in 0..MaxLen}
 
 Scenario(di, po, h, argv) ==
-  [decl |-> di, popts |-> po, handler |-> h, cmdHandler |-> TRUE, execErr |-> FALSE, env |-> <<>>, argv |-> argv]
+  [decl |-> di, popts |-> po, handler |-> h, cmdHandler |-> TRUE, execErr |-> FALSE, env |-> <<>>, argv |-> argv, completion |-> E, hasPrelude |-> FALSE, prelude |-> <<>>]
 
 ---------------------------------------------------------------------------
 Init == \E di \in DeclIds, po \in POptSets, h \in Handlers :
@@ -77,6 +77,7 @@ Init == \E di \in DeclIds, po \in POptSets, h \in Handlers :
 
 Act(a) == EnabledA(a, st) /\ st' = [ApplyA(a, st) EXCEPT !.steps = @ + 1]
 
+Start == Act("Start")
 Terminator == Act("Terminator")
 PassAfterNonOption == Act("PassAfterNonOption")
 NonOptPositional == Act("NonOptPositional")
@@ -94,7 +95,7 @@ Dispatch == Act("Dispatch")
 SkipToReturn == Act("SkipToReturn")
 Return == Act("Return")
 
-Next == \/ Terminator \/ PassAfterNonOption \/ NonOptPositional \/ NonOptCommand \/ NonOptUnknownCommand \/ NonOptRest
+Next == \/ Start \/ Terminator \/ PassAfterNonOption \/ NonOptPositional \/ NonOptCommand \/ NonOptUnknownCommand \/ NonOptRest
         \/ LongOpt \/ ShortBegin \/ ShortRune \/ LoopEnd \/ ApplyDefaults \/ CheckRequired
         \/ DiagnoseCommand \/ Dispatch \/ SkipToReturn \/ Return
 
